@@ -17,7 +17,10 @@ DataOf(b) == [q \in 1..(NR * NC) |-> IF Bit(b.mask, q - 1) THEN q ELSE 0]
 FileOf(b) == IF b.v = "crs" THEN BinWriteCrs(MatOf(b), b.sz) ELSE BinWriteDense(NR, NC, DataOf(b), b.sz)
 
 \* truncation points: for every field its first byte, a middle byte, its last byte gone
-CutPoints(f) == UNION {{f.off[k], f.off[k] + f.fields[k][3] \div 2, f.off[k] + f.fields[k][3] - 1} : k \in 1..Len(f.fields)}
+Fs(f) == FieldsOf(f)
+Off(f, q) == FieldOffset(f, Fs(f)[q][1], Fs(f)[q][2])
+Wd(f, q)  == FieldWidth(f, Fs(f)[q][1])
+CutPoints(f) == UNION {{Off(f, q), Off(f, q) + Wd(f, q) \div 2, Off(f, q) + Wd(f, q) - 1} : q \in 1..Len(Fs(f))}
 Classes(name) == IF name \in {"n", "m"} THEN {"dec", "inc", "big", "negbig", "hugepos"}
                  ELSE IF name = "ptr" THEN {"dec", "inc", "big", "negbig"}
                  ELSE IF name = "col" THEN {"other", "big", "negbig"} ELSE {"other"}
@@ -25,9 +28,16 @@ Mut(v, c) == CASE c = "dec" -> v - 1 [] c = "inc" -> v + 1 [] c = "big" -> v + 2
                [] c = "hugepos" -> v + 1048576 [] OTHER -> v + 3
 FaultsOf(f) == {[k |-> "none", at |-> 0, cls |-> ""]} \cup
                {[k |-> "trunc", at |-> p, cls |-> ""] : p \in CutPoints(f)} \cup
-               UNION {{[k |-> "field", at |-> q, cls |-> c] : c \in Classes(f.fields[q][1])} : q \in 1..Len(f.fields)}
+               UNION {{[k |-> "field", at |-> q, cls |-> c] : c \in Classes(Fs(f)[q][1])} : q \in 1..Len(Fs(f))}
 Apply(f, x) == CASE x.k = "trunc" -> [f EXCEPT !.len = x.at]
-                 [] x.k = "field" -> [f EXCEPT !.fields[x.at][4] = Mut(@, x.cls)]
+                 [] x.k = "field" ->
+                        LET nm == Fs(f)[x.at][1]
+                            k  == Fs(f)[x.at][2]
+                        IN  CASE nm = "n"   -> [f EXCEPT !.n = Mut(@, x.cls)]
+                              [] nm = "m"   -> [f EXCEPT !.m = Mut(@, x.cls)]
+                              [] nm = "ptr" -> [f EXCEPT !.ptr[k] = Mut(@, x.cls)]
+                              [] nm = "col" -> [f EXCEPT !.col[k] = Mut(@, x.cls)]
+                              [] OTHER      -> [f EXCEPT !.val[k] = Mut(@, x.cls)]
                  [] OTHER -> f
 Dense == base.v = "dense"
 Read(f, rb, re) == IF Dense THEN ReadDense(f, rb, re) ELSE ReadCrs(f, rb, re)
